@@ -19,6 +19,8 @@ def txt(t):
 def rsp_content(s):
     # later versions are shorter: a response file written over a leftover one must not keep the old tail
     v = s.get("rspver", 1)
+    if v == 0:
+        return ""      # a content that evaluates to nothing: the response file is written all the same, empty
     return "rsp-e%d-v%d" % (s["id"], v) + "x" * (5 * max(0, 3 - v))
 
 
@@ -115,7 +117,7 @@ def render_manifest(sc, cmd, ctl):
         if s["deps"] == "msvc" and s["id"] % 2:
             m += "  deps = msvc\n"
         if s["rsp"]:
-            m += "  rspfile = %s\n  rspfile_content = %s\n" % (rsp_path(s), rsp_content(s))
+            m += "  rspfile = %s\n  rspfile_content = %s\n" % (rsp_path(s), rsp_content(s) or "$nothing")
     for s in sc["stmts"]:
         m += "build " + " ".join(s["outs"])
         if s["iouts"]:
@@ -403,7 +405,7 @@ class Execution:
                 self.by_id[step["s"]]["ver"] += 1
                 self.write_manifest()
             elif op == "rspver":
-                self.by_id[step["s"]]["rspver"] += 1
+                self.by_id[step["s"]]["rspver"] = step["to"] if "to" in step else self.by_id[step["s"]]["rspver"] + 1
                 self.write_manifest()
             elif op == "verback":
                 self.by_id[step["s"]]["ver"] = 1
